@@ -6,8 +6,11 @@ open Banyan
     The model is instantiated with the shape of `mustInitFromDataPoints` found in the tree under test
     (`Generated.C02.initGuarded`), so that model and implementation correspond on the pinned code as
     well as on the repaired one; the theorems (and `Tie.C02.init_guard_tie`) are about the repaired one.
-    An explicit argument `legacy` / `fixed` overrides. -/
+    The same holds for the batch cut of `mergeBatch` (`Generated.C02.batchCutBetweenPoints`, F57).
+    An explicit argument `legacy` / `fixed` (`batchlegacy` / `batchfixed`) overrides. -/
 def main (args : List String) : IO Unit :=
   let legacy := if args.contains "legacy" then true else if args.contains "fixed" then false
                 else !Generated.C02.initGuarded
-  runDriver (Store.Proto.handleWith (if legacy then C02.cfgLegacy else C02.cfg))
+  let batchLegacy := if args.contains "batchlegacy" then true else if args.contains "batchfixed" then false
+                     else !Generated.C02.batchCutBetweenPoints
+  runDriver (Store.Proto.handleWith { (if legacy then C02.cfgLegacy else C02.cfg) with batchFinishRun := !batchLegacy })
